@@ -362,6 +362,9 @@ def nominal(rng, prob, kind):
     if kind == "zeros":
         return torch.zeros(prob.B, prob.T, prob.nc, dtype=prob.dtype)
     mag = 1.0 if kind == "rand" else 10.0
+    if kind == "hold":
+        # hold-input nominal: one input per batch item expanded over the horizon (time steps share memory)
+        return tt(rng.standard_normal((prob.B, 1, prob.nc)), prob.dtype).expand(prob.B, prob.T, prob.nc)
     return tt(rng.standard_normal((prob.B, prob.T, prob.nc)) * mag, prob.dtype)
 
 
@@ -410,14 +413,21 @@ def run_lqr_problem(ck, rng, prob, pid):
                 x_init = prob.new_x_init(rng)
             if rng.random() < 0.3:
                 lqr = pp.module.LQR(sysobj, prob.tQ, prob.tp, prob.T)      # new solver, same system object
-        uk = str(rng.choice(["none", "zeros", "rand", "rand", "big"]))
-        if uk in ("rand", "big"):
+        uk = str(rng.choice(["none", "zeros", "rand", "rand", "big", "hold"]))
+        if uk in ("rand", "big", "hold"):
             ck.mark("solve/nonzero-u_traj")
+        if uk == "hold":
+            ck.mark("solve/expanded-u_traj")
         ut = nominal(rng, prob, uk)
+        ut_before = None if ut is None else ut.clone()
         dt = 1 if prob.ltv() else rng.choice([1, 1, 2, 0.5])
         regime = lqr_regime(prob, uk, hist)
         wit = dict(prob.describe(), solve=j, u_traj=uk, history=hist, systime_before=int(sysobj.systime))
         okc, out = call_solver(ck, "lqr_start", regime, "LQR", prob, lambda: lqr(x_init, dt, ut), wit)
+        if ut is not None:
+            # the nominal trajectory is the caller's: it must come back unchanged (and the result must not alias it)
+            ck.count("lqr_nominal_untouched", regime, key=(pid, j))
+            ck.check(torch.equal(ut, ut_before), "lqr_nominal_untouched", regime, "LQR", "nominal_u_traj_modified_by_solve", wit)
         if not okc or not shapes_ok(ck, "lqr_start", regime, "LQR", prob, out):
             continue
         X, Uo, Co = f64(out[0]), f64(out[1]), f64(out[2]).reshape(-1)
@@ -662,7 +672,7 @@ def run(ck):
         run_mpc_nls(ck, rng, "f64" if i % 2 == 0 else "f32", (ck.shard, pid))
 
     ck.require("solve/second-on-same-object", "solve/second-on-same-object/LTV", "solve/systime!=0-before-first",
-               "solve/nonzero-u_traj", "family/LTI", "family/LTI-shared", "family/LTV-idx", "family/LTV-func",
+               "solve/nonzero-u_traj", "solve/expanded-u_traj", "family/LTI", "family/LTI-shared", "family/LTV-idx", "family/LTV-func",
                "dtype/f64", "dtype/f32", "B=1", "B=2", "B=3", "T=1", "T=2", "T=20",
                "n_state=1/T>=2/B>=2", "n_state=1/T>=2/unbatched-A", "n_state==n_ctrl", "kappa>=1e5", "rho>1",
                "c1/none", "c1/const", "c1/tv", "Q/per-step", "Q/time-invariant", "LTV-idx/period<T", "LTV-idx/period>=T",
